@@ -4,32 +4,39 @@
   Python                                                   Lean
   -------------------------------------------------------  -------------------------------------------
   slice(start, stop, step)                                  PSlice
-  slice.indices(n) for step >= 1                            clip, normalize          (Norm)
+  slice.indices(n) for step >= 1                            clip, startOf, stopOf, stepOf, normalize   (Norm)
   zarr SliceDimIndexer.nitems                               Norm.nitems
   zarr SliceDimIndexer.__iter__ (chunks hit, empty ones
       skipped; FixedDimension.index_to_chunk/data_size)     chunkNItems, hitBlocks
   zarr common.ceildiv                                       ceildiv
   ops._store_array, region branch:
       alignment test  `start % cs`, `stop % cs`, `stop == shape[i]`   misaligned
-      `source.shape != indexer.shape`                       shapeMismatch
-      (both, n-D, in the code's order)                      validate                 (Verdict)
+      zarr refuses the slice (step < 1)                     badStepAxis
+      `source.shape != indexer.shape`                       shapeMismatchAxis
+      (all of them, n-D, in the code's order)               validate                 (Verdict)
       block_offsets = start // cs  (0 for None)             blockOffset
       back_key_function  bi - off                           srcBlockOf
-      OutputBlocksIterable (OrthogonalIndexer product)      outputBlocks
-      num_tasks = source.npartitions                        declaredTasks
+      OutputBlocksIterable (OrthogonalIndexer product)      axisBlocks, outputBlocks
+      num_tasks = source.npartitions                        srcBlocks, declaredTasks
   primitive.blockwise.apply_blockwise for that op:
       get_chunk -> key_to_slices(source chunks)             srcInterval (IndexError when the block is absent)
       key_to_slices(out_coords, target, write_proxy.chunks) tgtInterval
-      zarr `target[slot] = value` with value[:W] then numpy
-      broadcasting (equal length or length 1)               axisTask                 (AxisTask)
-      one task, n-D                                         ndTask
-      all tasks in mappable order, stop at first failure    runRegion / runAxis
+      zarr `target[slot] = value`: value[:W], then numpy
+      broadcasting (equal length or length 1)               writeSlot                (AxisTask)
+      one task along one axis / n-D                         axisTask / ndTask
+      all tasks in mappable order, stop at first failure    runTasks, runAxis, runRegion   (Run)
+      contents after the writes                             applyPairs;  Python's `t[sl] = s`: expectedAxis, InRegion
   ops._store_array, no-region branch, computed source
-      (blockwise identity with the source's chunks)         copyBlocks, copyTask, runCopy
+      (blockwise identity with the source's chunks,
+       slot computed against the target's extent)           copyBlocks, copyTask, runCopy; validateNoRegion
   ops.store: len checks, region tuple vs list, zip          pairUp                   (RegionsArg, PairErr)
   ops.store loop over _store_array + compute_arrays:
       in-place re-targeting of lazy sources, read proxies
-      captured at build time, late ArrayNotFoundError       buildJobs, storeOutcome  (Pair, Job, Outcome)
+      captured at build time, late ArrayNotFoundError       retarget, movedTo, buildJobs, jobStale, jobResult,
+                                                            storeOutcome, storeWorld   (Arrays, Pair, Job, Outcome)
+  stored chunks a copy task touches (existing target)       chunksTouched
+  decidable side conditions of the partial theorems         stepOne, nonNegBounds, chunksAgree,
+                                                            allAccepted, lazyOnce, noDependants, targetsDistinct
 
   Arrays are functions `Nat → V` (1-D) or `List Nat → V` (n-D); a run yields the list of
   (target index, source index) pairs that were written, in write order.
@@ -336,6 +343,9 @@ structure Arrays where
   lazy : Nat → Bool
   /-- lazy arrays whose storage the plan of `a` reads; the read location was captured when `a` was built -/
   deps : Nat → List Nat
+  /-- `a.compute()` was called before the `store`: the original location of `a` exists and holds its values
+  (reading it stays correct even after `a` has been re-targeted) -/
+  computed : Nat → Bool := fun _ => false
 
 /-- One pair after `pairUp` and the per-pair checks. -/
 structure Pair where
@@ -394,13 +404,18 @@ inductive Outcome where
   | done (rs : List PairResult)
   deriving DecidableEq, Repr
 
-/-- `a`'s plan reads only locations that are still going to be written. -/
+/-- `a`'s plan reads only locations that are still going to be written (or were written before the call). -/
 def depsIntact (A : Arrays) (final : Moves) (a : Nat) : Bool :=
-  (A.deps a).all (fun d => (movedTo final d).isNone)
+  (A.deps a).all (fun d => (movedTo final d).isNone || A.computed d)
+
+/-- the location a copy op was built to read is the one the source's op finally writes, or the source's
+original location that an earlier `compute()` has filled -/
+def readOk (A : Arrays) (final : Moves) (s : Nat) (readAt : Option Nat) : Bool :=
+  !A.lazy s || readAt == movedTo final s || (readAt == none && A.computed s)
 
 def jobStale (A : Arrays) (final : Moves) : Job → Bool
   | .moved s _ => !depsIntact A final s
-  | .copy s readAt _ => !depsIntact A final s || (A.lazy s && readAt != movedTo final s)
+  | .copy s readAt _ => !depsIntact A final s || !readOk A final s readAt
 
 def jobResult (final : Moves) : Job → PairResult
   | .moved s t => if movedTo final s = some t then .written else .missing
